@@ -246,6 +246,19 @@ Proof.
 Qed.
 Print Assumptions GenTie_limbs_rs.
 
+(* reverse loops (`for x in xs.iter_mut().rev()`): shift_right_small (algorithms/shift.rs),
+   div_nx1_normalized and div_nx2_normalized (algorithms/div/small.rs; their per-limb steps
+   div_2x1 / div_3x2 and the reciprocals are themselves translated, see above) *)
+Theorem GenTie_limbs_rev :
+  (forall limbs amount, 0 <= amount ->
+     g_shift_right_small limbs amount = omap (fun p => (snd p, fst p)) (shift_right_small limbs amount)) /\
+  (forall u d, Forall inW u -> inW d ->
+     g_div_nx1_normalized u d = omap (fun p => (snd p, fst p)) (DivSmall.div_nx1_normalized u d)) /\
+  (forall u d, Forall inW u -> 0 <= d < BB ->
+     g_div_nx2_normalized u d = omap (fun p => (snd p, fst p)) (DivSmall.div_nx2_normalized u d)).
+Proof. exact (conj g_shift_right_small_eq (conj g_div_nx1_normalized_eq g_div_nx2_normalized_eq)). Qed.
+Print Assumptions GenTie_limbs_rev.
+
 (* the premises are satisfiable and the generated code computes: reciprocal(2^63) = 2^64 - 1 *)
 Example GenTie_nonvacuous :
   g_reciprocal_mg10 (2 ^ 63) = Val (2 ^ 64 - 1) /\ g_mask 65 = Val 1 /\ g_nlimbs 65 = Val 2 /\
@@ -254,5 +267,6 @@ Example GenTie_nonvacuous :
   g_checked_sub 65 2 [0; 0] [1; 0] = Val None /\
   g_div_3x2_ref (2 ^ 127) 0 (2 ^ 127 + 2 ^ 64 - 1) = Val (2 ^ 64 - 2) /\
   g_submul_nx1 [0; 5] [3; 0] (2 ^ 64 - 1) = Val (0, [3; 2]) /\
-  g_adc_n [2 ^ 64 - 1; 1] [1; 0] 0 = Val (0, [0; 2]).
+  g_adc_n [2 ^ 64 - 1; 1] [1; 0] 0 = Val (0, [0; 2]) /\
+  g_div_nx1_normalized [5; 7] (2 ^ 63) = Val (5, [14; 0]).
 Proof. vm_compute. repeat split. Qed.
